@@ -19,7 +19,9 @@ PathTab ==
    paib |-> [text |-> "/a/{id}/b",    segs |-> <<Lit("a"), Par("id"), Lit("b")>>],
    pdup |-> [text |-> "/c/{id}/{id}", segs |-> <<Lit("c"), Par("id"), Par("id")>>],
    pci  |-> [text |-> "/c/{id}",      segs |-> <<Lit("c"), Par("id")>>],
-   prpc |-> [text |-> "/rpc",         segs |-> <<Lit("rpc")>>]]
+   prpc |-> [text |-> "/rpc",         segs |-> <<Lit("rpc")>>],
+   pz   |-> [text |-> "/z",           segs |-> <<Lit("z")>>],
+   pempty |-> [text |-> "/e/{}",      segs |-> <<Lit("e"), Par("")>>]]
 PathIds == DOMAIN PathTab
 
 \* kind: schema | enum | text | regex
